@@ -198,5 +198,122 @@ PROPS["C11"] = {
     "assumptions": ["the container compares names by (UTF-16 length, upper-cased text)"],
 }
 
+PROPS["C01"] = {
+    "module": "MsiProofs.Props.C01",
+    "gen": ["limits", "summary", "column", "streamname", "category", "codepage"],
+    "profiles": ["dev"],
+    "theorems": ["MsiProofs.C01.cell_roundtrip", "MsiProofs.C01.storable_spec", "MsiProofs.C01.flush_clean", "MsiProofs.C01.finish_clears", "MsiProofs.C01.flush_idempotent", "MsiProofs.C01.close_modes_same_bytes"],
+    "level_text": 'Lean theorems on the package model: every storable cell is read back from its bytes (both reference widths), the empty string is stored as null, flush writes exactly what changed and a second flush changes nothing, the three ways of closing leave the same bytes. Composition over whole histories: byte-exact correspondence model vs real crate + oracle on the real code: snapshot before close = snapshot after reopen, for every close mode incl. crash-after-flush (bytes on the medium when flush returned, package forgotten).',
+    "level_note": "Trusted: Lean kernel; the hand-written package model (MsiModel/Pkg.lean, PkgApi.lean, Pool, Table, PropSet, Summary), tied to the code by byte-exact correspondence: the same request histories run on the real crate and on the model's definitions, compared on every reply including full snapshots and the raw bytes of every saved stream; cfb is modelled as a finite map from names (compared by UTF-16 length and upper-cased text) to byte strings; the 24 table-backed code pages are modelled on ASCII text only (non-ASCII text is exercised under UTF-8; all pages are exercised by the oracle on the real code).",
+    "technique": 'Lean 4 proof (codec round trip, flush idempotence) + byte-exact differential histories + reopen oracle',
+    "rule": 'seeded random sessions: package type, database code page, 1-3 tables with random schemas (types, widths, flags, ranges, categories, enumerations, composite/nullable keys), inserts (valid with controlled invalid mutations), updates (incl. key columns), deletes, selects, stream writes/removes (0..9000 bytes), summary setters/clearers, create/drop table, rejected calls, close/reopen in all three modes at random positions, snapshot after every step, raw bytes after flush. non-trivial = distinct successful mutating requests + decoded files',
+    "trusted_base": ["package model lean/MsiModel/{Pkg,PkgApi,Pool,Table,PropSet,Summary,Session}.lean", "reference database / independent decoder in harness/src/{refdb,decode,walk}.rs"],
+    "assumptions": ["cfb 0.10 behaves as a map from names to byte strings; Stream drop after an explicit flush is silent"],
+}
+
+PROPS["C03"] = {
+    "module": "MsiProofs.Props.C03",
+    "gen": ["limits", "column", "category"],
+    "profiles": ["dev"],
+    "theorems": ["MsiProofs.C03.filterRows_spec", "MsiProofs.C03.deleteGo_rows", "MsiProofs.C03.updPlan_spec", "MsiProofs.C03.insert_adds_exactly"],
+    "level_text": 'Lean theorems: the row loops of select, delete and update equal filter / keep-if-not / map-if of the relational model for every table, row list and condition; insert adds exactly the given rows to a key-sorted map. Frame condition and lift over histories: correspondence + an independent in-memory relational reference (harness/src/refdb.rs) compared after every step, plus all operation sequences to depth 3 (quick) / 4 (thorough) over a small alphabet.',
+    "level_note": "Trusted: Lean kernel; the hand-written package model (MsiModel/Pkg.lean, PkgApi.lean, Pool, Table, PropSet, Summary), tied to the code by byte-exact correspondence: the same request histories run on the real crate and on the model's definitions, compared on every reply including full snapshots and the raw bytes of every saved stream; cfb is modelled as a finite map from names (compared by UTF-16 length and upper-cased text) to byte strings; the 24 table-backed code pages are modelled on ASCII text only (non-ASCII text is exercised under UTF-8; all pages are exercised by the oracle on the real code).",
+    "technique": 'Lean 4 proof (loops = list operations, by induction) + exhaustive small-alphabet sequences + reference database oracle',
+    "rule": 'seeded random sessions: package type, database code page, 1-3 tables with random schemas (types, widths, flags, ranges, categories, enumerations, composite/nullable keys), inserts (valid with controlled invalid mutations), updates (incl. key columns), deletes, selects, stream writes/removes (0..9000 bytes), summary setters/clearers, create/drop table, rejected calls, close/reopen in all three modes at random positions, snapshot after every step, raw bytes after flush. non-trivial = distinct successful mutating requests + decoded files',
+    "trusted_base": ["package model lean/MsiModel/{Pkg,PkgApi,Pool,Table,PropSet,Summary,Session}.lean", "reference database / independent decoder in harness/src/{refdb,decode,walk}.rs"],
+    "assumptions": ["cfb 0.10 behaves as a map from names to byte strings; Stream drop after an explicit flush is silent"],
+}
+
+PROPS["C04"] = {
+    "module": "MsiProofs.Props.C04",
+    "gen": ["limits", "column", "category", "streamname"],
+    "profiles": ["dev"],
+    "theorems": ["MsiProofs.C04.createTable_rejected_noop", "MsiProofs.C04.createError_covers", "MsiProofs.C04.dropTable_rejected_noop", "MsiProofs.C04.stream_rejected_noop", "MsiProofs.C04.removeStream_missing_noop", "MsiProofs.C04.writeCols_err", "MsiProofs.C04.insert_rejected_noop", "MsiProofs.C04.delete_rejected_noop"],
+    "level_text": 'Lean theorems: a step of the model returns the state it leaves behind also on error; create_table performs every check (names, arity, key, duplicates, existence, storability, validity of all catalog rows) before its first mutation and returns the state untouched when one fails; likewise drop_table, the stream calls, and the argument rejections of Insert::exec / Delete::exec (write_rows can only fail with InvalidInput). Tie: every rejected call in the histories is followed by a snapshot compared with the previous one, and by save/reopen.',
+    "level_note": "Trusted: Lean kernel; the hand-written package model (MsiModel/Pkg.lean, PkgApi.lean, Pool, Table, PropSet, Summary), tied to the code by byte-exact correspondence: the same request histories run on the real crate and on the model's definitions, compared on every reply including full snapshots and the raw bytes of every saved stream; cfb is modelled as a finite map from names (compared by UTF-16 length and upper-cased text) to byte strings; the 24 table-backed code pages are modelled on ASCII text only (non-ASCII text is exercised under UTF-8; all pages are exercised by the oracle on the real code).",
+    "technique": 'Lean 4 proof (error paths return the input state) + snapshot-equality oracle on rejected calls',
+    "rule": 'seeded random sessions: package type, database code page, 1-3 tables with random schemas (types, widths, flags, ranges, categories, enumerations, composite/nullable keys), inserts (valid with controlled invalid mutations), updates (incl. key columns), deletes, selects, stream writes/removes (0..9000 bytes), summary setters/clearers, create/drop table, rejected calls, close/reopen in all three modes at random positions, snapshot after every step, raw bytes after flush. non-trivial = distinct successful mutating requests + decoded files',
+    "trusted_base": ["package model lean/MsiModel/{Pkg,PkgApi,Pool,Table,PropSet,Summary,Session}.lean", "reference database / independent decoder in harness/src/{refdb,decode,walk}.rs"],
+    "assumptions": ["cfb 0.10 behaves as a map from names to byte strings; Stream drop after an explicit flush is silent"],
+}
+
+PROPS["C05"] = {
+    "module": "MsiProofs.Props.C05",
+    "gen": ["limits", "column"],
+    "profiles": ["dev"],
+    "theorems": ["MsiProofs.C05.key_order_strict_total", "MsiProofs.C05.loadMap_sorted", "MsiProofs.C05.addRows_sorted", "MsiProofs.C05.insert_writes_sorted_unique", "MsiProofs.C05.insert_refused_iff_present", "MsiProofs.C05.sortByKey_perm"],
+    "level_text": 'Lean theorems: the derived ordering of values and key tuples is a strict total order; the key-sorted map used by Insert::exec stays strictly sorted through loading and adding, so the rows written back have pairwise distinct, ascending keys for every table, batch and arrival order; an insertion is refused exactly for a present key; the update path re-sorts by a permutation. Tie: the invariant (unique ascending keys, valid cells) is evaluated on the real rows after every step and reopen.',
+    "level_note": "Trusted: Lean kernel; the hand-written package model (MsiModel/Pkg.lean, PkgApi.lean, Pool, Table, PropSet, Summary), tied to the code by byte-exact correspondence: the same request histories run on the real crate and on the model's definitions, compared on every reply including full snapshots and the raw bytes of every saved stream; cfb is modelled as a finite map from names (compared by UTF-16 length and upper-cased text) to byte strings; the 24 table-backed code pages are modelled on ASCII text only (non-ASCII text is exercised under UTF-8; all pages are exercised by the oracle on the real code).",
+    "technique": 'Lean 4 proof (strict total order + sortedness invariant by induction) + invariant oracle on real rows',
+    "rule": 'seeded random sessions: package type, database code page, 1-3 tables with random schemas (types, widths, flags, ranges, categories, enumerations, composite/nullable keys), inserts (valid with controlled invalid mutations), updates (incl. key columns), deletes, selects, stream writes/removes (0..9000 bytes), summary setters/clearers, create/drop table, rejected calls, close/reopen in all three modes at random positions, snapshot after every step, raw bytes after flush. non-trivial = distinct successful mutating requests + decoded files',
+    "trusted_base": ["package model lean/MsiModel/{Pkg,PkgApi,Pool,Table,PropSet,Summary,Session}.lean", "reference database / independent decoder in harness/src/{refdb,decode,walk}.rs"],
+    "assumptions": ["cfb 0.10 behaves as a map from names to byte strings; Stream drop after an explicit flush is silent"],
+}
+
+PROPS["C06"] = {
+    "module": "MsiProofs.Props.C06",
+    "gen": ["column", "limits", "category"],
+    "profiles": ["dev"],
+    "theorems": ["MsiProofs.C06.bits_disjoint", "MsiProofs.C06.typeword_roundtrip_all", "MsiProofs.C06.bitfield_depends", "MsiProofs.C06.typeword_roundtrip", "MsiProofs.C06.unstorable_refused", "MsiProofs.C06.isStorable_iff"],
+    "level_text": "Lean theorems: the type word round-trips (type, width, nullable, key, localizable) for every storable column — generic lemma + decide +kernel over all 3,096 type words, bit constants regenerated from column.rs; create_table refuses every column that is not storable (width > 255, empty or ';'-containing enumeration values) without changing anything. Range, category, enumeration and foreign key travel through _Validation: tied by correspondence over builder options and by the schema-equality oracle after reopen.",
+    "level_note": "Trusted: Lean kernel; the hand-written package model (MsiModel/Pkg.lean, PkgApi.lean, Pool, Table, PropSet, Summary), tied to the code by byte-exact correspondence: the same request histories run on the real crate and on the model's definitions, compared on every reply including full snapshots and the raw bytes of every saved stream; cfb is modelled as a finite map from names (compared by UTF-16 length and upper-cased text) to byte strings; the 24 table-backed code pages are modelled on ASCII text only (non-ASCII text is exercised under UTF-8; all pages are exercised by the oracle on the real code).",
+    "technique": 'Lean 4 proof (exhaustive decide +kernel on regenerated constants, lifted) + schema round-trip oracle',
+    "rule": 'seeded random sessions: package type, database code page, 1-3 tables with random schemas (types, widths, flags, ranges, categories, enumerations, composite/nullable keys), inserts (valid with controlled invalid mutations), updates (incl. key columns), deletes, selects, stream writes/removes (0..9000 bytes), summary setters/clearers, create/drop table, rejected calls, close/reopen in all three modes at random positions, snapshot after every step, raw bytes after flush. non-trivial = distinct successful mutating requests + decoded files',
+    "trusted_base": ["package model lean/MsiModel/{Pkg,PkgApi,Pool,Table,PropSet,Summary,Session}.lean", "reference database / independent decoder in harness/src/{refdb,decode,walk}.rs"],
+    "assumptions": ["cfb 0.10 behaves as a map from names to byte strings; Stream drop after an explicit flush is silent"],
+}
+
+PROPS["C08"] = {
+    "module": "MsiProofs.Props.C08",
+    "gen": ["limits", "column"],
+    "profiles": ["dev"],
+    "theorems": ["MsiProofs.C08.cell_roundtrip", "MsiProofs.C08.min_is_null", "MsiProofs.C08.increfScan_total", "MsiProofs.C08.incref_accounting", "MsiProofs.C08.decrefAt_total", "MsiProofs.C08.decref_accounting"],
+    "level_text": "Lean theorems: cells are offset-binary with zero = null and the reserved minimum; incref adds exactly one reference to an entry holding exactly the string and never yields a live empty entry, decref removes exactly one and clears the text at zero (unused entries are empty), dangling references change nothing. Tie: the raw streams of every saved file are decoded by an independent decoder (harness/src/decode.rs): whole rows, live references, exact reference counts over all tables incl. the catalog, no stale text, catalog = existing tables with columns numbered 1..n, rows = API rows; and compared byte-for-byte with the model's own save.",
+    "level_note": "Trusted: Lean kernel; the hand-written package model (MsiModel/Pkg.lean, PkgApi.lean, Pool, Table, PropSet, Summary), tied to the code by byte-exact correspondence: the same request histories run on the real crate and on the model's definitions, compared on every reply including full snapshots and the raw bytes of every saved stream; cfb is modelled as a finite map from names (compared by UTF-16 length and upper-cased text) to byte strings; the 24 table-backed code pages are modelled on ASCII text only (non-ASCII text is exercised under UTF-8; all pages are exercised by the oracle on the real code).",
+    "technique": 'Lean 4 proof (reference-count accounting by induction) + independent format decoder on real saved bytes',
+    "rule": 'seeded random sessions: package type, database code page, 1-3 tables with random schemas (types, widths, flags, ranges, categories, enumerations, composite/nullable keys), inserts (valid with controlled invalid mutations), updates (incl. key columns), deletes, selects, stream writes/removes (0..9000 bytes), summary setters/clearers, create/drop table, rejected calls, close/reopen in all three modes at random positions, snapshot after every step, raw bytes after flush. non-trivial = distinct successful mutating requests + decoded files',
+    "trusted_base": ["package model lean/MsiModel/{Pkg,PkgApi,Pool,Table,PropSet,Summary,Session}.lean", "reference database / independent decoder in harness/src/{refdb,decode,walk}.rs"],
+    "assumptions": ["cfb 0.10 behaves as a map from names to byte strings; Stream drop after an explicit flush is silent"],
+}
+
+PROPS["C10"] = {
+    "module": "MsiProofs.Props.C10",
+    "gen": ["summary", "codepage", "limits"],
+    "profiles": ["dev"],
+    "theorems": ["MsiProofs.C10.value_size_exact", "MsiProofs.C10.value_tag", "MsiProofs.C10.insertSorted_get", "MsiProofs.C10.set_get", "MsiProofs.C10.remove_get", "MsiProofs.C10.codepage_follows_set"],
+    "level_text": 'Lean theorems: every property value is written in exactly the number of bytes the offset table assumes (the encoded length for strings), a multiple of four, with the type tag the reader dispatches on — so offsets are exact and aligned and the section size is exact, for every property set and codec; setters are last-write-wins, clearing makes a property absent, others untouched; the cached code page follows property 1 for every ordered pair of the 26 pages incl. back to UTF-8. Tie: getters before/after reopen vs an independent expectation, raw summary bytes model vs real.',
+    "level_note": "Trusted: Lean kernel; the hand-written package model (MsiModel/Pkg.lean, PkgApi.lean, Pool, Table, PropSet, Summary), tied to the code by byte-exact correspondence: the same request histories run on the real crate and on the model's definitions, compared on every reply including full snapshots and the raw bytes of every saved stream; cfb is modelled as a finite map from names (compared by UTF-16 length and upper-cased text) to byte strings; the 24 table-backed code pages are modelled on ASCII text only (non-ASCII text is exercised under UTF-8; all pages are exercised by the oracle on the real code).",
+    "technique": 'Lean 4 proof (size = written length; setter algebra; decide on regenerated ids) + correspondence of summary bytes and getters',
+    "rule": 'seeded random sessions: package type, database code page, 1-3 tables with random schemas (types, widths, flags, ranges, categories, enumerations, composite/nullable keys), inserts (valid with controlled invalid mutations), updates (incl. key columns), deletes, selects, stream writes/removes (0..9000 bytes), summary setters/clearers, create/drop table, rejected calls, close/reopen in all three modes at random positions, snapshot after every step, raw bytes after flush. non-trivial = distinct successful mutating requests + decoded files',
+    "trusted_base": ["package model lean/MsiModel/{Pkg,PkgApi,Pool,Table,PropSet,Summary,Session}.lean", "reference database / independent decoder in harness/src/{refdb,decode,walk}.rs"],
+    "assumptions": ["cfb 0.10 behaves as a map from names to byte strings; Stream drop after an explicit flush is silent"],
+}
+
+PROPS["C12"] = {
+    "module": "MsiProofs.Props.C12",
+    "gen": ["limits", "column"],
+    "profiles": ["dev"],
+    "theorems": ["MsiProofs.C12.joinInner_spec", "MsiProofs.C12.joinRows_spec", "MsiProofs.C12.prefixed_spec", "MsiProofs.C12.unknown_table", "MsiProofs.C12.unknown_projection"],
+    "level_text": 'Lean theorems: the join loops equal the documented combination for every pair of row lists and every condition: inner = for each left row in order, each right row in order, the concatenation exactly when the condition holds; left = additionally each unmatched left row once, padded with nulls; result columns are table.column with the right side nullable in a left join; unknown tables/columns are errors. Composition over select trees: correspondence + reference evaluator on generated trees (self-joins, nested joins, sub-selects).',
+    "level_note": "Trusted: Lean kernel; the hand-written package model (MsiModel/Pkg.lean, PkgApi.lean, Pool, Table, PropSet, Summary), tied to the code by byte-exact correspondence: the same request histories run on the real crate and on the model's definitions, compared on every reply including full snapshots and the raw bytes of every saved stream; cfb is modelled as a finite map from names (compared by UTF-16 length and upper-cased text) to byte strings; the 24 table-backed code pages are modelled on ASCII text only (non-ASCII text is exercised under UTF-8; all pages are exercised by the oracle on the real code).",
+    "technique": 'Lean 4 proof (join loops = flatMap/filter by induction) + reference evaluator over select trees',
+    "rule": 'seeded random sessions: package type, database code page, 1-3 tables with random schemas (types, widths, flags, ranges, categories, enumerations, composite/nullable keys), inserts (valid with controlled invalid mutations), updates (incl. key columns), deletes, selects, stream writes/removes (0..9000 bytes), summary setters/clearers, create/drop table, rejected calls, close/reopen in all three modes at random positions, snapshot after every step, raw bytes after flush. non-trivial = distinct successful mutating requests + decoded files',
+    "trusted_base": ["package model lean/MsiModel/{Pkg,PkgApi,Pool,Table,PropSet,Summary,Session}.lean", "reference database / independent decoder in harness/src/{refdb,decode,walk}.rs"],
+    "assumptions": ["cfb 0.10 behaves as a map from names to byte strings; Stream drop after an explicit flush is silent"],
+}
+
+PROPS["C20"] = {
+    "module": "MsiProofs.Props.C20",
+    "gen": ["limits", "streamname", "column"],
+    "profiles": ["dev"],
+    "theorems": ["MsiProofs.C20.limits", "MsiProofs.C20.too_many_columns", "MsiProofs.C20.row_limit_insert", "MsiProofs.C20.row_limit_read", "MsiProofs.C20.incref_below_limit", "MsiProofs.C20.incref_at_limit_panics", "MsiProofs.C20.table_name_fits"],
+    "level_text": "Lean theorems: more than 32 columns is refused with the state untouched; an insert beyond the reader's row bound is refused with the state untouched and the reader refuses the same bound (one regenerated constant); incref accepts any string strictly below the reference-width capacity; accepted table names fit the container. The panic at exactly 65,535 pool entries is a recorded finding (theorem incref_at_limit_panics states it on the model). Tie: boundary histories at L-1, L, L+1.",
+    "level_note": "Trusted: Lean kernel; the hand-written package model (MsiModel/Pkg.lean, PkgApi.lean, Pool, Table, PropSet, Summary), tied to the code by byte-exact correspondence: the same request histories run on the real crate and on the model's definitions, compared on every reply including full snapshots and the raw bytes of every saved stream; cfb is modelled as a finite map from names (compared by UTF-16 length and upper-cased text) to byte strings; the 24 table-backed code pages are modelled on ASCII text only (non-ASCII text is exercised under UTF-8; all pages are exercised by the oracle on the real code).",
+    "technique": 'Lean 4 proof (limits as theorems over regenerated constants) + boundary correspondence',
+    "rule": 'seeded random sessions: package type, database code page, 1-3 tables with random schemas (types, widths, flags, ranges, categories, enumerations, composite/nullable keys), inserts (valid with controlled invalid mutations), updates (incl. key columns), deletes, selects, stream writes/removes (0..9000 bytes), summary setters/clearers, create/drop table, rejected calls, close/reopen in all three modes at random positions, snapshot after every step, raw bytes after flush. non-trivial = distinct successful mutating requests + decoded files',
+    "trusted_base": ["package model lean/MsiModel/{Pkg,PkgApi,Pool,Table,PropSet,Summary,Session}.lean", "reference database / independent decoder in harness/src/{refdb,decode,walk}.rs"],
+    "assumptions": ["cfb 0.10 behaves as a map from names to byte strings; Stream drop after an explicit flush is silent"],
+}
+
 # reasons for properties not claimed (yet); everything else defaults to "not yet built"
 NOT_CLAIMED = {}
